@@ -1,6 +1,7 @@
 import Driver.Proto
 import XmlRsModel.AttrNorm
 import XmlRsModel.Concrete
+import XmlRsModel.DomOK
 /-! Canonical dump of an `IDoc` — the same text the Rust harness produces from the real items. -/
 namespace Driver
 open XmlRs
@@ -135,5 +136,12 @@ def opThm04 (s : Str) : String :=
     | some cd =>
       let b (x : Bool) : Nat := if x then 1 else 0
       s!"profile=1 ok={b cd.ok} faithful={b (d.kids.all faithfulTop)} depth={b (cd.root.depth ≤ Gen.Xml.maxDepth_element && doctypeDepth cd.doctype ≤ Gen.Xml.maxDepth_children)} canon={b (printDoc d == cd.str)}"
+
+/-- does the hypothesis of the C15 invariant theorem (`Thm/C15Valid.lean: document_stays_valid`) hold of the document this text
+    parses to?  every item of the document would pass the validity check the DOM applies to supplied data of its kind -/
+def opThm15 (s : Str) : String :=
+  match parseDoc s with
+  | .error x => s!"err:{errClass x}"
+  | .ok (d, _) => s!"docok={if Dom.docOK d then 1 else 0}"
 
 end Driver
